@@ -93,6 +93,13 @@ def run_sibling_shard(shard, tier):
         res["sibling_pairs"] += 1
         if ref is None or mb is None:
             if (ref is None) != (mb is None):
+                # a wall-clock timeout of one of the two calls (loaded machine) is not a refusal: ask both again, outcomes visible
+                f0 = mgraph.start_models()[start]
+                r2, o_ref = mgraph.apply(f0.replace(dataset=f0.dataset.copy()), b)
+                m2b, o_sib = mgraph.apply(m0, b, private=False)
+                if "timeout" in (o_ref, o_sib) or (r2 is None) == (m2b is None):
+                    res["outcomes"]["sibling:undecided-timeout"] = res["outcomes"].get("sibling:undecided-timeout", 0) + 1
+                    continue
                 res["violations"].append({"history": [start, [a, b]], "what": f"[{start}: {b} after deriving {a} from the same object] "
                                           f"sibling: {b} is {'refused' if mb is None else 'accepted'} but "
                                           f"{'accepted' if mb is None else 'refused'} on a fresh {start}", "class": "sibling"})
